@@ -4,6 +4,7 @@
  R2 twins: the checked/unchecked select, the complement word accessors and the ones/zeros query wrappers are isomorphic modulo their
     documented difference (the public API only runs the unchecked twins, and the suite never reaches the long-superblock branch)
  R3 the cached count of set bits is computed from the very data it is stored with
+ R4 producer/consumer agreement of the select support layout (offsets relative to the stored sample; tag parity)
 """
 from facts import Undecided, loc, tstr, callee_name, subterms, operand_place
 from guards import facts_at, strip_casts
@@ -14,13 +15,15 @@ import twins
 META = {
     "level": "other",
     "technique": "static analysis: evaluated-constant relations, MIR isomorphism of twin implementations modulo a named substitution, provenance of the cached count (rustc_private driver)",
-    "explanation": "The arithmetic of rank/select is not decided. What is decided are three necessary conditions the test suite cannot see: "
+    "explanation": "The arithmetic of rank/select is not decided. What is decided are four necessary conditions the test suite cannot see: "
                    "(1) the sampling constants (block, superblock, masks, relative-rank packing) satisfy the relations the algorithms assume, "
                    "and BitVector::load validates with the same constants; (2) each pair of twin implementations -- SelectSupport::select "
                    "vs select_unchecked, Complement::word vs word_unchecked, BitVector::{select, select_iter, one_iter} vs their zero "
                    "counterparts -- is MIR-isomorphic modulo the documented substitution, so a one-sided edit (the long-superblock branch "
                    "is never reached by the suite) is reported with the two diverging statements; (3) every BitVector outside load stores "
-                   "ones = count_ones() of the same data.",
+                   "ones = count_ones() of the same data; (4) what SelectSupport::new stores and what select() reads agree: offsets in "
+                   "long/short are relative to the position sample pushed for the superblock, and the long/short tag parity is written "
+                   "and tested alike.",
     "trusted_base": ["rustc's MIR and constant evaluation"],
     "assumptions": ["an edit applied identically to both twins is not detected by R2 (stated limit)"],
 }
